@@ -1,9 +1,15 @@
 package s0309
 
+type G2 struct {
+	F1x0x0 int64
+	F1x0x1 uint32
+}
+
+type G1 struct {
+	F1x0 G2
+}
 
 type T struct {
-	F0 *int32
-	F1 *int64
-	F2 uint32
-	F3 uint64
+	F0 int32
+	F1 []G1
 }
